@@ -91,6 +91,8 @@ def census(tree):
                taxon_anns=(set(id(a) for x in nodes if x.taxon is not None for a in x.taxon.annotations) |
                            set(id(a.value) for x in nodes if x.taxon is not None for a in x.taxon.annotations if isinstance(a.value, list))),
                anns=set(id(a) for x in nodes for a in list(x.annotations) + list(x._edge.annotations)) | set(id(a) for a in tree.annotations),
+               bips=(set(id(x._edge._bipartition) for x in nodes if x._edge._bipartition is not None) |
+                     set(id(b) for b in (tree.bipartition_encoding or []))),
                annsets=set(id(x.annotations) for x in nodes), comments=set(id(x.comments) for x in nodes) | set([id(tree.comments)]))
     return ids
 
@@ -140,7 +142,7 @@ def c12_tree(kw):
             if d_src[i] != d_cp[i]:
                 return "copy-not-equal-to-source:" + nm
     c_src, c_cp = census(tree), census(cp)
-    for part in ("nodes", "edges", "anns", "annsets", "comments"):
+    for part in ("nodes", "edges", "anns", "annsets", "comments", "bips"):
         if c_src[part] & c_cp[part]:
             return "copy-shares-" + part
     if route in DEEP:
